@@ -24,6 +24,7 @@ func init() {
 		EnumRule:    "obligations per rule and construct (function + store / idiom)",
 		Assumptions: []string{"segment matching inside findRelative, crash-freedom of Find on malformed expressions and the global induction over histories are not decided"},
 		Controls: []Control{
+			{Name: "findRelative falls back to Find", File: "kernel/device/acpi/aml/obj_tree.go", Old: "func (tree *ObjectTree) findRelative(scopeIndex uint32, expr []byte) uint32 {\n\texprLen := len(expr)\n", New: "func (tree *ObjectTree) findRelative(scopeIndex uint32, expr []byte) uint32 {\n\texprLen := len(expr)\n\tif exprLen == amlNameLen {\n\t\treturn tree.Find(scopeIndex, expr)\n\t}\n", Expect: "C13.R4 downward-only"},
 			{Name: "digits stop the prefix skipping", File: "kernel/device/acpi/aml/obj_tree.go", Old: "(expr[segIndex] < 'A' || expr[segIndex] > 'Z'); segIndex++ {", New: "(expr[segIndex] < 'A' || expr[segIndex] > 'Z') && (expr[segIndex] < '0' || expr[segIndex] > '9'); segIndex++ {", Expect: "C13.R4"},
 			{Name: "short last segment accepted", File: "kernel/device/acpi/aml/obj_tree.go", Old: "\t\tif exprLen-segIndex < amlNameLen {", New: "\t\tif segIndex >= exprLen {", Expect: "C13.R5"},
 			{Name: "successor looked up after the link was overwritten", File: "kernel/device/acpi/aml/obj_tree.go", Old: "\ttree.ObjectAt(arg.nextSiblingIndex).prevSiblingIndex = arg.index\n\tnextTo.nextSiblingIndex = arg.index\n", New: "\tnextTo.nextSiblingIndex = arg.index\n\ttree.ObjectAt(nextTo.nextSiblingIndex).prevSiblingIndex = arg.index\n", Expect: "C13.R2"},
